@@ -19,6 +19,16 @@ def module_tables():
     import iodata.utils
     from iodata.formats import cp2klog, fchk, molden, mwfn, wfn, xyz
 
+    class _Lenient:
+        """Attribute access that yields None for names a refactoring has removed (the snapshot then simply lacks that table)."""
+
+        def __init__(self, mod):
+            self._mod = mod
+
+        def __getattr__(self, name):
+            return getattr(self._mod, name, None)
+
+    cp2klog, fchk, molden, mwfn, wfn, xyz = (_Lenient(m) for m in (cp2klog, fchk, molden, mwfn, wfn, xyz))
     out = {
         "periodic.num2sym": iodata.periodic.num2sym,
         "periodic.sym2num": iodata.periodic.sym2num,
@@ -35,12 +45,12 @@ def module_tables():
         "cp2klog.CONVENTIONS": cp2klog.CONVENTIONS,
         "api.FORMAT_MODULES": {k: v.__name__ for k, v in iodata.api.FORMAT_MODULES.items()},
         "api.INPUT_MODULES": {k: v.__name__ for k, v in iodata.api.INPUT_MODULES.items()},
-        "utils.STRTOBOOL": iodata.utils.STRTOBOOL,
-        "utils.constants": {k: getattr(iodata.utils, k) for k in ("angstrom", "electronvolt", "meter", "nanometer", "second", "picosecond",
+        "utils.STRTOBOOL": getattr(iodata.utils, "STRTOBOOL", None),
+        "utils.constants": {k: getattr(iodata.utils, k, None) for k in ("angstrom", "electronvolt", "meter", "nanometer", "second", "picosecond",
                                                                     "amu", "kcalmol", "calmol", "kjmol")},
-        "overlap_cartpure.tfs": list(iodata.overlap_cartpure.tfs),
-        "xyz.DEFAULT_ATOM_COLUMNS": [tuple(x for x in col if not callable(x)) for col in xyz.DEFAULT_ATOM_COLUMNS],
-        "patterns": {k: list(v.PATTERNS) for k, v in iodata.api.FORMAT_MODULES.items()},
+        "overlap_cartpure.tfs": list(getattr(iodata.overlap_cartpure, "tfs", [])),
+        "xyz.DEFAULT_ATOM_COLUMNS": [tuple(x for x in col if not callable(x)) for col in (xyz.DEFAULT_ATOM_COLUMNS or [])],
+        "patterns": {k: list(getattr(v, "PATTERNS", [])) for k, v in iodata.api.FORMAT_MODULES.items()},
     }
     return out
 
